@@ -621,7 +621,8 @@ func lexRegex(l *lexer) stateFn {
 			}
 		case r == '/':
 			l.emit(TokenRegex)
-			return lexToken
+			// A regex is a complete operand: a binary operator may follow it.
+			return tryLexBinaryOperator
 		case r == eof:
 			return l.errorf("unterminated regex")
 		default:
